@@ -607,7 +607,7 @@ static void c41Gate(long idx, vrt::Rng& r) {
       if ((i & 255) == 0) vrt::progress();
     }
   });
-  bool arrived = vrt::gateWaitArrived(V::kSbaAfterBackingLock, 8000);
+  bool arrived = vrt::gateWaitArrived(V::kSbaAfterBackingLock, 30000);
   bool diagReturned = false, secondEntered = false;
   if (arrived) {
     std::atomic<int> dstate{0};
